@@ -475,6 +475,10 @@ func (c *c02) runPar2(r *core.R, p c02Params, rng *rand.Rand) {
 				args = append(args, "-doublecheck")
 			}
 			args = append(args, idx)
+			if p.Seed%2 == 0 {
+				// the archive named twice on the command line
+				args = append(args, idx)
+			}
 			tr := mon.Trace(root, args, nil)
 			if tr.Err != nil {
 				r.Inconclusive("strace: %v", tr.Err)
@@ -482,6 +486,21 @@ func (c *c02) runPar2(r *core.R, p c02Params, rng *rand.Rand) {
 			}
 			r.Count("strace_events", int64(len(tr.Events)))
 			c.judge(r, c02Run{op: "repair", layer: "strace", protected: protected, root: root, before: before, after: scen.Snapshot(root), writes: mutatedPaths(tr.Events, root), desc: desc + fmt.Sprintf(" exit=%d", tr.Exit)})
+			// what the command tells the user it repaired: every file it wrote
+			if tr.Exit == 0 {
+				line := ""
+				for _, l := range strings.Split(tr.Output, "\n") {
+					if strings.HasPrefix(l, "Repaired files:") {
+						line = l
+					}
+				}
+				for _, wpath := range mutatedPaths(tr.Events, root) {
+					if _, isProt := protected[filepath.Clean(wpath)]; isProt && !strings.Contains(line, wpath) {
+						r.Violate("written-but-not-listed|repair", "par %v exited 0 and wrote %q, but its summary reads %q; %s", args[1:], wpath, line, desc)
+					}
+				}
+				r.Count("cli_repair_summaries_checked", 1)
+			}
 			r.Key("par2|%s|exit=%d|strace", p.Kind, tr.Exit)
 			r.Sample(map[string]interface{}{"format": "par2", "kind": p.Kind, "layer": "strace", "ops": st.Log, "exit": tr.Exit, "fs_events": len(tr.Events), "mutations": mutatedPaths(tr.Events, root)})
 			return
